@@ -1,4 +1,5 @@
 import CookModel.Lemmas.RoundtripInput
+import CookModel.Lemmas.RoundtripPara
 /-
   C01, document level: a token stream made of blocks (single `>>` / `=` lines, steps of one or more
   lines) separated by blank lines is split by `allBlocks` into exactly those blocks, and
@@ -623,16 +624,19 @@ theorem rtd_doc_runs (tds : List (List Tok × List Tok)) : ∀ (off : Nat) (A : 
 
 /-! ### the events of a document -/
 
-/-- the blocks of a recipe text: a step (one or more lines), a section line, a `>>` metadata line -/
+/-- the blocks of a recipe text: a step (one or more lines), a section line, a `>>` metadata line, a text
+    paragraph (`>` block of one or more lines) -/
 inductive DocItem where
   | step (segs : List SegX)
   | sectionLine (name : Option (List Tok)) (p : SPad)
   | metaLine (key value : List Tok) (p : MPad)
+  | para (lines : List PLine)
 
 def DocItem.spell : DocItem → List Tok
   | .step segs => segs.flatMap SegX.spell
   | .sectionLine name p => spellSection name p
   | .metaLine k v p => spellMeta k v p
+  | .para lines => lines.flatMap PLine.spell
 
 /-- side conditions of a block: those of its layer; a step additionally has the shape of a
     multi-line block (no blank line inside, no line starting with `>>` or `=`) -/
@@ -641,12 +645,16 @@ def DocItem.ok (cs : CharSpec) (ext : Ext) : DocItem → Bool
     segsXOK cs ext segs && stepBlockOK (segs.flatMap SegX.spell) && stepShape (segs.flatMap SegX.spell)
   | .sectionLine name p => sectionOK cs name p
   | .metaLine k v p => metaOK cs k v p
+  | .para lines =>
+    paraLinesOK cs lines && lines.head?.any (·.marker) && stepShape (lines.flatMap PLine.spell)
 
 /-- the events a block must produce -/
 def DocItemEvs (cs : CharSpec) : DocItem → List (Ev α) → Prop
   | .step segs, evs => ∃ e, evs = [.start .step] ++ e ++ [.stop .step] ∧ SegsXEvs cs segs e
   | .sectionLine name _, evs => ∃ ev, evs = [ev] ∧ SectionMatches cs name ev
   | .metaLine k v _, evs => ∃ ev, evs = [ev] ∧ MetaMatches cs k v ev
+  | .para lines, evs =>
+    ∃ ts : List Text, evs = [.start .text] ++ ts.map Ev.text ++ [.stop .text] ∧ ts.map (·.text) = lines.map PLine.text
 
 theorem rtd_pad_noNL {cs : CharSpec} {l : List Tok} (h : padOK cs l = true) : NoNL l := by
   intro t ht hk
@@ -732,6 +740,9 @@ theorem rtd_item_shape (cs : CharSpec) (ext : Ext) (d : DocItem) (h : d.ok cs ex
     exact Or.inr h.2
   | sectionLine name p => exact Or.inl (rtd_section_shape cs name p h)
   | metaLine k v p => exact Or.inl (rtd_meta_shape cs k v p h)
+  | para lines =>
+    simp only [DocItem.ok, Bool.and_eq_true] at h
+    exact Or.inr h.2
 
 /-- one block of a document through `parse_block`: its events are appended, the panic flag is kept -/
 theorem rtd_runBlock_item (cs : CharSpec) (ext : Ext) (d : DocItem) (h : d.ok cs ext = true) (ts : List Tok)
@@ -750,6 +761,10 @@ theorem rtd_runBlock_item (cs : CharSpec) (ext : Ext) (d : DocItem) (h : d.ok cs
   | metaLine k v p =>
     obtain ⟨ev, h1, h2⟩ := rtb_runBlock_meta (α := α) k v p cs ext ts evs0 panic h hs hrun
     exact ⟨[ev], _, h1, by simp, ev, rfl, h2⟩
+  | para lines =>
+    simp only [DocItem.ok, Bool.and_eq_true] at h
+    obtain ⟨txts, arr, h1, h2, h3⟩ := rtp_runBlock_para (α := α) lines cs ext true ts evs0 panic hs hrun h.1.1 h.1.2
+    exact ⟨[.start .text] ++ txts.map Ev.text ++ [.stop .text], arr, h1, by rw [h2]; simp, txts, rfl, h3⟩
 
 /-- running the blocks of a document one after the other: the events of the blocks, concatenated -/
 theorem rtd_fold_items (cs : CharSpec) (ext : Ext) (doc : List (DocItem × List Tok)) (tds : List (List Tok × List Tok))
